@@ -171,15 +171,16 @@ static int ht_wait_settled(struct htab *t, const char *role, const char *what, v
 	}
 	uint64_t act = worker_activity() - act0;
 	int starved = rq_starved_permille(getpid(), &rq0);
-	if (!act && minq >= 1 && minq < (1L << 30) && starved < 250) {
+	int dstate = count_tasks_state(getpid(), 'D');
+	if (!act && minq >= 1 && minq < (1L << 30) && starved < 250 && !dstate) {
 		char key[96];
 		snprintf(key, sizeof(key), "hang:fork:%s:ht-resize-never-ran", role);
 		R_viol(key, "%s %s: lazy resize queued (resize_initiated=%d size=%lu target=%lu, work queue length stayed >= %ld) for %ld polls and the resize worker showed no activity (no workqueue/resize hook point hit in pid %d, %d tasks)",
 		       role, what, t->ht->resize_initiated, ht_size(t), ht_target(t), minq, g_settle_polls, (int) getpid(),
 		       count_tasks(getpid()));
 	} else {
-		R_inconcl("%s %s: table did not settle in %ld polls (worker hook hits %llu, min work queue length %ld, max CPU starvation %d per mille)",
-			  role, what, g_settle_polls, (unsigned long long) act, minq == (1L << 30) ? -1 : minq, starved);
+		R_inconcl("%s %s: table did not settle in %ld polls (worker hook hits %llu, min work queue length %ld, max CPU starvation %d per mille, %d tasks in uninterruptible sleep)",
+			  role, what, g_settle_polls, (unsigned long long) act, minq == (1L << 30) ? -1 : minq, starved, dstate);
 	}
 	return -1;
 }
